@@ -972,7 +972,13 @@ def check_update(ctx, tu, sy, f, counts):
             if inl.depth > 0:
                 return [st]             # return of a followed helper (its value reaches update() through the call hooks)
             ks = tu.kids(n)
-            v = concrete(flag_value(ks[0], vars_), flag) if ks else None
+            rx = tu.strip(ks[0], casts=True) if ks else None
+            if rx is not None and rx.get('kind') == 'ConditionalOperator' and flag is not None:
+                c_, a_, b_ = tu.kids(rx)[:3]
+                cp, ca = sy.cond_atom(c_)
+                if ca is not None and flag_token(tu, sy, ca, FLAG):
+                    rx = a_ if (flag if cp else (not flag)) else b_       # the arm this path evaluated
+            v = concrete(flag_value(rx, vars_), flag) if rx is not None else None
             if v is None:
                 found.und(R3, 'return value of update() is not a constant / a local with a known constant value on this path', n)
             elif v and not inst:
@@ -1307,7 +1313,34 @@ def lexical_lock(tu, sy, f, n, mutex, T=None):
                             return None if manual else True
                         if m == mutex and held is None:
                             return None
-        if par.get('kind') in ('CXXMethodDecl', 'FunctionDecl', 'LambdaExpr'):
+        if par.get('kind') == 'LambdaExpr':
+            # the access sits in a closure: locked iff the closure is handed to a helper of this class that invokes its
+            # parameter inside a lock scope (`locked([&]{ ... })`); anything else about a closure is not known lexically
+            call = tu.par(par)
+            hops = 0
+            while call is not None and hops < 6 and call.get('kind') not in ('CallExpr', 'CXXMemberCallExpr'):
+                call = tu.par(call)
+                hops += 1
+            if call is None or call.get('kind') not in ('CallExpr', 'CXXMemberCallExpr') or not tu.kids(call):
+                return None
+            names = [y.get('name') or y.get('member') for y in tu.walk(tu.kids(call)[0])
+                     if y.get('kind') in ('MemberExpr', 'UnresolvedMemberExpr', 'CXXDependentScopeMemberExpr', 'UnresolvedLookupExpr')]
+            names = [nm for nm in names if nm]
+            rec_ = f.get('rec')
+            verdicts = []
+            for h in tu.functions.values():
+                if not h['dep'] or h.get('rec') != rec_ or tu.body(h) is None or h['id'] == f['id']:
+                    continue
+                if names and last(h['q']) not in names:
+                    continue        # (the AST dump does not always name an unresolved member call: then every candidate counts)
+                pids = {p_['id'] for p_ in h.get('params', [])}
+                calls = [y for y in tu.walk(tu.body(h)) if 'id' in y and y.get('kind') in ('CallExpr', 'CXXOperatorCallExpr') and
+                         any(z.get('kind') == 'DeclRefExpr' and z.get('referencedDecl', {}).get('id') in pids
+                             for z in tu.walk(tu.kids(y)[0]))] if pids else []
+                if calls:
+                    verdicts.append(all(lexical_lock(tu, sy, h, y, mutex, T) is True for y in calls))
+            return True if verdicts and all(verdicts) else None
+        if par.get('kind') in ('CXXMethodDecl', 'FunctionDecl'):
             return False
         x = par
     return False
